@@ -693,8 +693,10 @@ where
                     let llay = LWELayout { n: Degree(n1 as u32), k: TorusPrecision(k as u32), base2k: Base2K(b as u32) };
                     let lenc = EncryptionLayout::new(llay, ni).unwrap();
                     let sk1 = lwe_secret(n1, c.dist, c.seed, 1);
-                    let mut lpt = LWEPlaintext::alloc(Base2K(b as u32), TorusPrecision(k as u32));
-                    for (j, l) in gen_column(VClass::Uniform, b, 1, size, c.seed ^ 0x56).iter().enumerate() {
+                    // the plaintext may hold fewer limbs than the ciphertext (the remaining limbs of the body come from a temporary)
+                    let pt_size = 1 + (c.idx as usize % size);
+                    let mut lpt = LWEPlaintext::alloc(Base2K(b as u32), TorusPrecision((pt_size * b) as u32));
+                    for (j, l) in gen_column(VClass::Uniform, b, 1, pt_size, c.seed ^ 0x56).iter().enumerate() {
                         lpt.data_mut().at_mut(0, j)[0] = l[0];
                     }
                     if op == 36 {
